@@ -166,10 +166,7 @@ theorem invertSkips_complete : ∀ (c : List (Nat × Nat)) (a b : Nat),
   intro c
   -- generalise over the accumulator of the fold
   suffices h : ∀ (c : List (Nat × Nat)) (m : List (Nat × List Nat)) (a b : Nat),
-      b ∈ ((Assoc.find? (c.foldl (fun m e =>
-        match Assoc.find? m e.2 with
-        | some ts => Assoc.insert m e.2 (insertSorted e.1 ts)
-        | none => Assoc.insert m e.2 [e.1]) m) a).getD []) ↔
+      b ∈ ((Assoc.find? (c.foldl invertStep m) a).getD []) ↔
       (b ∈ ((Assoc.find? m a).getD []) ∨ (b, a) ∈ c) by
     intro a b
     have := h c [] a b
@@ -189,9 +186,9 @@ theorem invertSkips_complete : ∀ (c : List (Nat × Nat)) (a b : Nat),
     · subst hfa
       cases hm : Assoc.find? m from_ with
       | none =>
-        simp only [find?_insert_same, Option.getD_some, Option.getD_none, List.mem_singleton, List.not_mem_nil, false_or, and_true]
+        simp only [invertStep, hm, find?_insert_same, Option.getD_some, Option.getD_none, List.mem_singleton, List.not_mem_nil, false_or, and_true]
       | some ts =>
-        simp only [find?_insert_same, Option.getD_some, mem_insertSorted, and_true]
+        simp only [invertStep, hm, find?_insert_same, Option.getD_some, mem_insertSorted, and_true]
         constructor
         · rintro ((h | h) | h)
           · exact Or.inr (Or.inl h)
@@ -204,9 +201,11 @@ theorem invertSkips_complete : ∀ (c : List (Nat × Nat)) (a b : Nat),
     · have hne : ¬ (b = to ∧ a = from_) := fun h => hfa h.2.symm
       cases hm : Assoc.find? m from_ with
       | none =>
+        simp only [invertStep, hm]
         rw [find?_insert_other _ _ _ _ hfa]
         simp [hne]
       | some ts =>
+        simp only [invertStep, hm]
         rw [find?_insert_other _ _ _ _ hfa]
         simp [hne]
 
